@@ -145,6 +145,18 @@ def family(rnd, g):
     return g.ss(items + extra), frags
 
 
+def forwardize(rnd, g, frags):
+    """pure forwarding fragments: the body of a fragment moves to a new fragment that the old one only spreads (directly
+    or inside an inline fragment) - the comparison between fragments must go on into the fragments they spread"""
+    for name in list(frags):
+        if rnd.random() < 0.45:
+            inner = name + "w"
+            on = frags[name]["on"]
+            frags[inner] = {"on": on, "sel": frags[name]["sel"]}
+            sp = {"k": "S", "name": inner}
+            frags[name] = {"on": on, "sel": g.ss([sp] if rnd.random() < 0.6 else [{"k": "I", "on": rnd.choice(["", on]), "sel": g.ss([sp])}])}
+
+
 def render(ss):
     out = []
     for s in ss["items"]:
@@ -182,6 +194,8 @@ def _chunk(seeds):
             for name in fr:
                 frags[name]["sel"] = g.sel(frags[name]["on"], 2, fr)      # fragments may spread each other and themselves
             root = g.sel("Query", 3, fr)
+        if sd % 3 == 1 and frags:
+            forwardize(rnd, g, frags)
         text = "query($v: Int, $w: Int) " + render(root) + " " + " ".join(f"fragment {n_} on {f['on']} {render(f['sel'])}" for n_, f in frags.items())
         rec = {"schema": ABS, "doc": {"root": root, "frags": frags or {"_none": {"on": "Query", "sel": {"id": 0, "items": []}}}}, "_text": text, "_seed": sd}
         signal.alarm(20)
